@@ -299,8 +299,7 @@ def run(ctx):
             continue
         fld = lhs['proj'][0].get('name')
         gs = [(strip(g), k) for g, k, sw in pp.guard_terms(i)]
-        arm = [k for g, k in gs if isinstance(g, tuple) and g[0] in ('bin', 'fld') and 'Add' in show(g, maxdepth=4) or (isinstance(g, tuple) and g[0] == 'fld' and g[2] == '0' and 'Add' in str(g)) and isinstance(k, int)]
-        arm = [k for g, k in gs if isinstance(k, int) and _is_j_plus_1(g)]
+        arm = [n for n in (_joint_number(g, k) for g, k in gs) if n is not None]
         if fld in ('c1', 'c2', 'c3', 'c4', 'a1', 'a2', 'b') and arm:
             arms.setdefault(arm[-1], set()).add(fld)
             if fld == 'a2':
@@ -311,6 +310,22 @@ def run(ctx):
             src = util.loop_source(it)
             r = util.range_of(src) if src is not None else None
             if r is None:
+                # `for (j, name) in names.iter().enumerate()`: slot j is written from the joint found under this very `name`
+                it0 = strip(it)
+                if isinstance(it0, tuple) and it0[0] == 'fld' and it0[2] == '0' and util.loop_source(it0[1]) is not None and \
+                        'enumerate' in util.iter_chain(util.loop_source(it0[1]))[1]:
+                    rg = census.Bounds(pp).rng(it0)
+                    v = pp.rv_term(st['rv'], (i, j))
+                    js = mir.subterms(v, lambda x: x[0] == 'call' and cname(x[1]) == 'HashMap::get')
+                    same = False
+                    for g in js:
+                        key = strip(g[3])
+                        while isinstance(key, tuple) and key[0] in ('deref', 'ref'):
+                            key = strip(key[1])
+                        same = same or (isinstance(key, tuple) and key[0] == 'fld' and key[2] == '1' and strip(key[1]) == strip(it0[1]))
+                    want_src = {'sign_corrections': 'sign_correction', 'from': 'from', 'to': 'to'}[fld]
+                    srcfld = mir.subterms(v, lambda x: x[0] == 'fld' and x[2] == want_src)
+                    slots_ok[fld] = same and bool(srcfld) and rg == (0, 5)
                 continue
             v = pp.rv_term(st['rv'], (i, j))
             # value derives from joint = get(names[j]) with the same j
@@ -336,6 +351,16 @@ def run(ctx):
             key = strip(pp.op_term(t2['args'][1], (bi, None)))
             if isinstance(key, tuple) and key[0] == 'idx' and util.loop_source(key[2]) is not None:
                 name_tables.add(strip(key[1]))
+            k2 = key
+            while isinstance(k2, tuple) and k2[0] in ('deref', 'ref'):
+                k2 = strip(k2[1])
+            if isinstance(k2, tuple) and k2[0] == 'fld' and k2[2] == '1' and util.loop_source(k2[1]) is not None:
+                base, ad = util.iter_chain(util.loop_source(k2[1]))
+                if 'enumerate' in ad:
+                    base = strip(base)
+                    while isinstance(base, tuple) and base[0] in ('deref', 'ref'):
+                        base = strip(base[1])
+                    name_tables.add(base)
     dof_writes = {}
     for i, j, st in pp.stmts():
         lhs = st['lhs']
@@ -495,7 +520,7 @@ def _component_table(ctx, prog, pp, opl):
         if lhs['local'] != opl or not lhs['proj']:
             continue
         fld = lhs['proj'][0].get('name')
-        arm = [k for g, k, sw in pp.guard_terms(i) if isinstance(k, int) and _is_j_plus_1(strip(g))]
+        arm = [n for n in (_joint_number(strip(g), k) for g, k, sw in pp.guard_terms(i)) if n is not None]
         if fld not in ('c1', 'c2', 'c3', 'c4', 'a1', 'a2', 'b') or not arm or (arm[-1], fld) not in COMPONENTS:
             continue
         v = pp.rv_term(st['rv'], (i, j))
@@ -534,6 +559,26 @@ def _component_table(ctx, prog, pp, opl):
             ctx.check(ok, 'R20.9', key, hb.where(0), hb.path,
                       'the helper choosing between two components must return the non-zero one (0 when both are 0, an error when both are set)',
                       found=repr(got)[:200], expected='Err' if want is None else 'Ok(%g)' % want, detail='by interpretation')
+
+
+def _joint_number(g, k):
+    """the joint number (1..6) an arm of the match over the slots stands for: arm k of `match j + 1`, or arm k of a match on the
+    zero-based slot index itself (the loop variable of `0..6`, or the index of `names.iter().enumerate()`), which is joint k + 1"""
+    if not isinstance(k, int) or isinstance(k, bool):
+        return None
+    if _is_j_plus_1(g):
+        return k
+    g = strip(g)
+    src = util.loop_source(g)
+    if src is not None:
+        r = util.range_of(src)
+        if r is not None and util.const_val(r[0]) == 0:
+            return k + 1
+    if isinstance(g, tuple) and g[0] == 'fld' and g[2] == '0':
+        src = util.loop_source(g[1])
+        if src is not None and 'enumerate' in util.iter_chain(src)[1]:
+            return k + 1
+    return None
 
 
 def _is_j_plus_1(g):
